@@ -24,10 +24,19 @@ def demo(d, tree):
 
 
 def suite(tree):
+    """The pinned suite command imports the package installed in /venv, not the tree, so it is also run with
+    PYTHONPATH=<tree>/python (then all 152 tests pass on a clean tree); both must hold."""
     rc, o = sh('/venv/bin/python -m pytest -q -p no:cacheprovider --timeout=900 --continue-on-collection-errors 2>&1 | tail -5', cwd=tree)
     last = [l for l in o.strip().split('\n') if 'passed' in l or 'failed' in l]
     fails = {l.split('::')[-1].split(' ')[0] for l in o.split('\n') if l.startswith('FAILED')}
-    return (last[-1] if last else o[-200:]), fails
+    env = dict(os.environ, PYTHONPATH=tree + '/python')
+    rc2, o2 = sh('/venv/bin/python -m pytest -q -p no:cacheprovider --timeout=900 --continue-on-collection-errors 2>&1 | tail -5', cwd=tree, env=env)
+    last2 = [l for l in o2.strip().split('\n') if 'passed' in l or 'failed' in l]
+    line = (last[-1] if last else o[-200:]) + ' | against the tree sources: ' + (last2[-1] if last2 else o2[-200:])
+    ok_src = bool(last2) and 'failed' not in last2[-1] and '152 passed' in last2[-1]
+    if not ok_src:
+        fails = fails | {'<fails against tree sources>'}
+    return line, fails
 
 
 results = []
